@@ -175,27 +175,47 @@ def python_oracle(c, out_units, obs):
     extra = ev.get('extra')
     if not isinstance(extra, dict):
         return 'attribute', 'extra is not an object'
+    finding = None   # the open known finding (F16) never hides another violation of the same event
     for k, v in custom.items():
         if k in ROUTES:
             a, b, name = ROUTES[k]
+            slot = '.'.join(x for x in (a, b, name) if x)
             o = ev.get(a, {})
             if b is not None:
                 o = o.get(b, {}) if isinstance(o, dict) else {}
-            want, lost = to_qstring(v)
-            if not (isinstance(o, dict) and name in o):
-                return 'attribute', 'routed attribute %r missing from its slot %s' % (k, '.'.join(x for x in (a, b, name) if x))
+            o = o if isinstance(o, dict) else {}
+            want, nonscalar = to_qstring(v)
+            if nonscalar:
+                # a list / map / null under a routed name: "value intact" = the value itself, once, in the slot or under extra
+                intact = J.value_py(v)
+                in_slot = name in o and J.same(o[name], intact)
+                in_extra = k in extra and J.same(extra[k], intact)
+                if (in_slot and k not in extra) or (in_extra and name not in o):
+                    continue
+                if name in o and o[name] == '' and k not in extra:
+                    if finding is None:
+                        finding = ('routed_nonscalar_value',
+                                   'routed attribute %r holds a %s; its slot %s holds "" (QVariant::toString) and it is absent from extra: the value is lost'
+                                   % (k, VALUE_TYPE[v[0]], slot),
+                                   {'attribute': k, 'value_type': VALUE_TYPE[v[0]], 'slot': slot, 'rendered': ''})
+                    continue
+                return 'attribute', 'routed attribute %r (a %s) is neither intact nor rendered as today: slot %s = %s, extra = %s' % (
+                    k, VALUE_TYPE[v[0]], slot, _r(o.get(name, '<absent>')), _r(extra.get(k, '<absent>')))
+            if name not in o:
+                return 'attribute', 'routed attribute %r missing from its slot %s' % (k, slot)
             if not J.same(o[name], want):
                 return 'attribute', 'routed attribute %r is %r in its slot, expected %r' % (k, o[name], want)
             if k in extra:
                 return 'attribute', 'routed attribute %r appears twice (slot and extra)' % k
-            if lost:
-                obs['routed_attribute_with_list_map_or_null_value_rendered_empty'] = obs.get('routed_attribute_with_list_map_or_null_value_rendered_empty', 0) + 1
         else:
             if k not in extra:
                 return 'attribute', 'custom attribute %r missing from extra' % k
             if not J.same(extra[k], J.value_py(v)):
                 return 'attribute', 'custom attribute %r is %r under extra, expected %r' % (k, extra[k], J.value_py(v))
-    return None
+    return finding
+
+
+VALUE_TYPE = {'a': 'list', 'o': 'map', 'n': 'null'}
 
 
 def event_id_of(out_units):
@@ -234,6 +254,8 @@ def judge(c, r, obs):
         return None  # virtual clock not effective: reported as broken correspondence by the caller
     po = python_oracle(c, J.unhx(r['impl']), obs)
     if po:
+        if po[0] == 'routed_nonscalar_value' and r['verdict'] == '1':
+            return 'oracle', 'the Python oracle reports a lost routed value but the extracted oracle prop_c18_b accepts the output'
         return po
     if r['verdict'] != '1':
         return 'oracle', 'extracted oracle prop_c18_b rejects the implementation output (the Python oracle accepted it)'
@@ -278,7 +300,8 @@ def run():
                    'modelled, not verified: QJsonDocument/QJsonObject, QVariant::toString, QDateTime UTC rendering; QUuid::createUuid is outside (format + distinctness observed)']
     chk.assumptions = ['strings are sequences of 16-bit units (theorems) / well-formed UTF-16 (oracle streams); lone surrogates are only diffed',
                        'message times lie in years 0001..9999 (four-digit ISO years)', 'the harness runs under three (TZ, system locale) environments incl. ar_EG / fa_IR; the event must not depend on them',
-                       'routed attribute names carry string / integer / bool values; a list, map or null under a routed name is rendered "" by QVariant::toString (counted as an observation)',
+                       'a list, map or null under a routed name is rendered "" by QVariant::toString and skipped in extra: reported as kind routed_nonscalar_value (open known finding F16; C18_routed_nonscalar_value_lost_refuted); C18_oracle_holds assumes routed_scalar',
+                       'a double under a routed name is rendered in shortest-g form (number text): not generated, observation only',
                        'a fingerprint cut through a surrogate pair is an observation, not a violation (the cut is in UTF-16 units)',
                        'thread id and Qt version string are read from the run and given to the model; the event id is taken from the output']
     chk.proof(vlib.proof_leg('Properties_C18', ['json', 'sentry']))
@@ -335,13 +358,15 @@ def run():
         j = judge(ts[-1], rr[-1], {})
         return j[0] if j else None
 
-    diffs, bad = [], []
+    diffs, bad, bad_fields = [], [], {}
     for i, (c, r) in enumerate(zip(cases, res)):
         if r['impl'] != r['model']:
             diffs.append(i)
         j = judge(c, r, obs)
         if j:
-            bad.append((i, j))
+            bad.append((i, (j[0], j[1])))
+            if len(j) > 2:
+                bad_fields[i] = j[2]
     reported = set()
     for i, (kind, detail) in sorted(bad, key=lambda x: len(line_of(cases[x[0]]))):
         if kind in reported:
@@ -349,6 +374,21 @@ def run():
         reported.add(kind)
         tz = tz_of[i]
         before = None
+        if kind == 'routed_nonscalar_value':
+            # shrink to the one offending attribute on an otherwise trivial message
+            c0 = cases[i]
+            name = bad_fields[i]['attribute']
+            keep = [(k, v) for k, v in c0['attrs'] if J.pystr(k) == name][-1:]
+            t = dict(c0); t.update({'attrs': keep, 'msg': [], 'fmt': None, 'ms': 0, 'type': 0, 'line': 1,
+                                    'cat': J.units('c'), 'file': J.units('f'), 'fn': J.units('g'), 'stream': 'routed-any'})
+            small = t if kind_of(t, tz) == kind else shrink_case(c0, lambda t: kind_of(t, tz) == kind)
+            rr, _ = run_cases(impl, model, [small], tz)
+            j2 = judge(small, rr[0], {}) if rr else None
+            d = describe(small, rr[0] if rr else None, tz)
+            d.update({'kind': kind, 'detail': (j2 or (kind, detail))[1], 'falsified_cases': sum(1 for b in bad if b[1][0] == kind)})
+            d.update(j2[2] if j2 and len(j2) > 2 else bad_fields[i])
+            chk.fail('SentryFormatter output falsifies C18 (%s): %s' % (kind, d['detail']), d, kind=kind)
+            continue
         if kind_of(cases[i], tz) != kind:
             # not reproducible on a fresh formatter: look for one earlier event of the same sub-run (same SentryFormatter object)
             prev = [j for j in idxs[tz] if j < i][-60:]
@@ -399,6 +439,7 @@ def run():
         'streams': {s: sum(1 for c in cases if c['stream'] == s) for s in ('wf', 'routed-any', 'malformed')},
         'byte_exact_disagreements_model_vs_impl': len(diffs),
         'oracle_evaluated_on_impl_outputs': len(wf_cases), 'oracle_falsified': len(bad),
+        'oracle_falsified_by_kind': {k: sum(1 for b in bad if b[1][0] == k) for k in sorted({b[1][0] for b in bad})},
         'event_ids_seen': len(ids), 'event_ids_distinct': len(set(ids)),
         'types': {LEVEL[t]: sum(1 for c in cases if c['type'] == t) for t in range(5)},
         'category_default_or_empty': sum(1 for c in cases if J.pystr(c['cat'] or []) in ('', 'default')),
